@@ -45,6 +45,11 @@ class Builder:
     def spd(self, name, R, D): return self._add(name, "spd", (R, D, D))
     def diag(self, name, R, D): return self._add(name, "diag", (R, D, D))
 
+    def derived(self, name, shape, fn):
+        """an input whose entries are functions of earlier inputs (e.g. a precision supplied
+        *consistently* with a covariance): fn(I, ops) -> object array of that shape"""
+        return self._add(name, "derived", shape, fn)
+
     def const(self, name, value):
         value = np.asarray(value, dtype=object)
         return self._add(name, "const", value.shape, value)
@@ -129,6 +134,10 @@ class Builder:
                     for x in range(D):
                         for y in range(D):
                             a[r, x, y] = ctx.var(f"{i.name}_{r}_{x}") if x == y else ctx.ZERO
+            elif i.kind == "derived":
+                from .spec import SymOps
+                a = np.asarray(i.value(out, SymOps(ctx)), dtype=object)
+                assert tuple(a.shape) == tuple(i.shape), (a.shape, i.shape)
             elif i.kind == "const":
                 a = np.empty(i.shape, dtype=object)
                 for idx in np.ndindex(*i.shape):
